@@ -46,9 +46,11 @@ CHECKS = {
        "step lists, hence for every (d,p), shard size and content: no chunking (incl. the 32 KiB work chunk) can change a "
        "symbol, the output is determined by the unit vectors, reused work buffers cannot matter. C17leo_*: Leopard's GF(2^8) "
        "log/exp/product tables, evaluated by the kernel, are GF(2^8)/0x11D under the Cantor map; constants regenerated from "
-       "the Go source are the published ones. Tie: generators of the real encoders (all 21,845 GF8 pairs in the thorough tier, a "
+       "the Go source are the published ones. C04_encodeSched_inRange / C05_reconSched_inRange: every step of the generated "
+       "Encode / Reconstruct schedule addresses rows and shards in range, for ALL (d,p), erasure sets and locator tables, so "
+       "C04_encode_local_all / _chunking_all / _linear_all hold with no per-configuration hypothesis. Tie: generators of the real encoders (all 21,845 GF8 pairs in the thorough tier, a "
        "structured sample + GF16 grid in the quick tier) = schedule model = Lagrange closed form over nodes m..n-1; the "
-       "hypotheses of the structural theorems (rows in range, no read-before-write) decided per configuration; seeded encodes at "
+       "remaining structural hypothesis (no read-before-write of work rows) decided per configuration; seeded encodes at "
        "sizes straddling the 32 KiB chunk, forced GF16, option sets; Leopard Verify flips.",
   note=TB + " PARTIAL: that the schedule generators emit the Lin-Chung-Han transform is established per explored "
        "configuration (equality with the closed form), not by a general theorem; GF(2^16) has no field instance in Lean "
@@ -121,7 +123,9 @@ CHECKS = {
        "long-lived real encoders (matrix cache on/off, Leopard GF8 locator cache incl. >=64 KiB sets, GF16), every operation "
        "repeated on a fresh encoder; answers and bytes must agree and equal the original data; all ordered pairs of erasure sets "
        "on small configurations.",
-  note=TB + " The Leopard GF8 locator cache and the sync.Pool work buffers have no Lean theorem yet: they are decided by the "
+  note=TB + " Leopard GF8 locator cache: the KEY is proved injective on erasure sets (C05_bf8_cacheID_injective on the word-level "
+       "bit-field model, tied to errorBitfield8.cacheID by the bfkey ops) and the cached VALUE is a function of the erasure set "
+       "(C05_errLocs_fn); the sync.Map get/put and the sync.Pool work buffers have no Lean theorem: they are decided by the "
        "fresh-vs-long-lived comparison on collision-biased histories (this found and now guards fix f76f5f8). StreamEncoder's "
        "block pool is exercised by C11/C14.",
   design="4/C10"),
